@@ -17,7 +17,8 @@ class U3GateToRotation(DecompositionRule[GateOperation]):
 
     def predicate(self, operation: GateOperation) -> bool:
         # Only decompose U3 and its controlled version
-        return (
+        # Circuits may also hold non-gate operations; the rule does not apply to them.
+        return isinstance(operation, GateOperation) and (
             operation.gate.name == "U3"
             or isinstance(operation.gate, ControlledGate)
             and operation.gate.wrapped_gate.name == "U3"
